@@ -13,6 +13,9 @@ R09.2  worker confinement: no function reachable from the worker entry point wri
 R09.3  static/dynamic split is a partition: along every path through one iteration of the split loops each advance of
        the function cursor is preceded by exactly one append of *that* function to exactly one of the two lists, the
        static list only under hash equality with the reference entry
+       the function hash really covers the whole body: SHA1Update is partially evaluated for every (buffered count, length)
+       with 0 <= length <= 200 and the bytes handed to the compression function, in order, are exactly the buffered bytes
+       followed by the input, the remainder (always < 64) stays buffered, and the bit count advances by 8 * length
 R09.4  formatting neutrality: for every dispatch row and control-flow script the pretty and non-pretty templates are
        the same C after parsing (identical typed AST modulo parentheses, braces and white space); symbol prefixing
        changes nothing but a `<module>_` prefix on function identifiers
@@ -452,6 +455,82 @@ def check_partition(chk):
                        'drain loop runs while %r; expected it to run until the function cursor reaches the end' % cond, site + ':drain-cond')
 
 
+def check_hash_coverage(chk, tier):
+    """R09.3 (hash part): block splitting of SHA1Update, decided for all lengths 0..200 and representative buffered counts"""
+    tu = astdb.dump_ast(astdb.src('w2c2/sha1.c'))
+    chk.unit(tu)
+    chk.require('SHA1Update' in tu.functions and 'SHA1Transform' in tu.functions, 'anchor SHA1Update / SHA1Transform not found in sha1.c')
+    chk.fn('SHA1Update')
+    site = 'SHA1Update:coverage'
+    j0s = list(range(64)) if tier == 'thorough' else [0, 1, 8, 55, 56, 63]
+    n = 0
+    bad = []
+    for j0 in j0s:
+        for length in range(0, 201):
+            fed = []            # bytes given to the compression function, in order
+
+            def setup(j0=j0, length=length):
+                buf = [('old', k) for k in range(j0)] + [('junk', k) for k in range(j0, 64)]
+                ctx = {'state': [0] * 5, 'count': j0 << 3, 'buffer': buf}
+                data = [('in', k) for k in range(length)] + [('past-end', 0)]
+                return ('SHA1Update', [Ptr({'v': ctx}, 'v'), Ptr(data, 0), length], {'ctx': ctx, 'fed': []})
+
+            def transform(interp, args, node):
+                p = args[1]
+                blk = list(p.c[p.k:p.k + 64])
+                interp.path.state['fed'].extend(blk)
+                return None
+
+            def memcpy(interp, args, node):
+                d, s_, k = args[0], args[1], args[2]
+                if not isinstance(k, int) or k < 0 or k > 64:
+                    raise pe.PEError('memcpy of %r bytes' % (k,))
+                for t in range(k):
+                    d.c[d.k + t] = s_.c[s_.k + t]
+                return d
+            it = pe.Interp([tu], {'SHA1Transform': transform, 'memcpy': memcpy, '__builtin_memcpy': memcpy})
+            try:
+                paths = it.explore(setup)
+            except (pe.PEError, IndexError) as e:
+                bad.append('buffered %d, length %d: %s' % (j0, length, e))
+                continue
+            n += 1
+            if len(paths) != 1 or paths[0].aborted:
+                bad.append('buffered %d, length %d: %d paths' % (j0, length, len(paths)))
+                continue
+            st = paths[0].state
+            want = [('old', k) for k in range(j0)] + [('in', k) for k in range(length)]
+            nfull = (j0 + length) // 64
+            rem = (j0 + length) % 64
+            ok = st['fed'] == want[:64 * nfull] and st['ctx']['buffer'][:rem] == want[64 * nfull:] and st['ctx']['count'] == ((j0 + length) << 3)
+            if not ok:
+                bad.append('buffered %d bytes, update with %d bytes: the compression function received %d bytes (expected %d), %s'
+                           % (j0, length, len(st['fed']), 64 * nfull,
+                              'some input bytes never reach the hash' if len(st['fed']) < 64 * nfull or st['ctx']['buffer'][:rem] != want[64 * nfull:] else 'wrong order/count'))
+    chk.expect(not bad, 'R09.3', 'hash-covers-every-byte',
+               'SHA1Update does not feed every byte exactly once (%d of %d cases fail; first: %s): two function bodies that differ only in the '
+               'skipped bytes get the same hash and a changed function is classified static' % (len(bad), n + len(bad), '; '.join(bad[:3])), site,
+               detail_ok='%d (buffered, length) cases: every byte reaches the compression function exactly once, in order' % n)
+    # the function hash is taken over exactly the body bytes
+    rtu = astdb.dump_ast(astdb.src('w2c2/reader.c'))
+    f = rtu.functions.get('wasmReadCodeSection')
+    chk.require(f is not None, 'anchor wasmReadCodeSection not found')
+    calls = [c for c in walk(astdb.fn_body(f)) if c.get('kind') == 'CallExpr' and astdb.callee_name(c) == 'SHA1']
+    args = [[astdb.expr_text(strip(a, casts=True)) for a in astdb.call_args(c)] for c in calls]
+    chk.expect(args == [['localsDeclarationsOffset', 'codeSize', 'function->hash']], 'R09.3', 'hash-of-whole-body',
+               'function hash is computed as SHA1(%r); expected the bytes from the locals declarations over the declared code size into function->hash' % (args,),
+               'wasmReadCodeSection:hash')
+    stu = astdb.dump_ast(astdb.src('w2c2/main.c'))
+    cmpf = None
+    for t in (stu, rtu):
+        if 'wasmFunctionIDsCompareHashes' in t.functions and astdb.fn_body(t.functions['wasmFunctionIDsCompareHashes']) is not None:
+            cmpf = (t, t.functions['wasmFunctionIDsCompareHashes'])
+    chk.require(cmpf is not None, 'anchor wasmFunctionIDsCompareHashes not found')
+    mc = [c for c in walk(astdb.fn_body(cmpf[1])) if c.get('kind') == 'CallExpr' and astdb.callee_name(c) in ('memcmp', '__builtin_memcmp')]
+    ok = len(mc) == 1 and astdb.const_int(astdb.call_args(mc[0])[2], cmpf[0]) == 20
+    chk.expect(ok, 'R09.3', 'hash-compare-full-digest', 'hash comparison does not compare all 20 digest bytes (%d memcmp calls)' % len(mc), 'wasmFunctionIDsCompareHashes')
+
+
 # ---- R09.4 ----------------------------------------------------------------------------------------
 
 def canon(node, tu):
@@ -692,7 +771,12 @@ def check_whole_outputs(chk, tier):
         for fpf in fpfs:
             for pretty, multiple in modes:
                 label = 'f=%d,static=%r,dynamic=%r,p%d,m%d' % (fpf, static, dynamic, pretty, multiple)
-                files = R.render(it, mk, fpf, static, dynamic, pretty, multiple)
+                try:
+                    files = R.render(it, mk, fpf, static, dynamic, pretty, multiple)
+                except pe.OutOfBounds as e:
+                    chk.fail('R09.7', 'in-bounds[%s]' % label, 'writing the output for %s: %s - the writer indexes a module or function-ID array '
+                             'past its end, so what is emitted depends on whatever follows it in memory' % (label, e), site + ':out-of-bounds')
+                    continue
                 n += 1
                 defs = {}
                 for name, text in files.items():
@@ -792,6 +876,7 @@ def run(chk):
     units = c10.load_units(chk)
     check_confinement(chk, tu, c10.all_functions(units))
     check_partition(chk)
+    check_hash_coverage(chk, chk.tier)
     tus = emit.translator_tus(('c.c', 'opcode.c', 'instruction.c'), chk=chk)
     n_t = check_neutrality(chk, tus)
     n_w = check_twins(chk, tus)
